@@ -16,6 +16,8 @@ pub struct Block {
     pub target: i64,
     pub assert: String,
     pub discr: String,
+    pub cases: Vec<(u64, usize)>,
+    pub otherwise: i64,
     /// (stmt index, 'w'|'r', field chain, src, line)
     pub st: Vec<(usize, char, String, String, usize)>,
 }
@@ -129,6 +131,8 @@ impl Facts {
                         target: bl["target"].as_i64().unwrap_or(-1),
                         assert: s(&bl, "assert"),
                         discr: s(&bl, "discr"),
+                        cases: bl["cases"].as_array().cloned().unwrap_or_default().iter().filter_map(|c| Some((c[0].as_u64()?, c[1].as_u64()? as usize))).collect(),
+                        otherwise: bl["otherwise"].as_i64().unwrap_or(-1),
                         st: vec![],
                     };
                     for st in bl["st"].as_array().cloned().unwrap_or_default() {
@@ -137,6 +141,8 @@ impl Facts {
                             blk.st.push((i, 'w', w.to_string(), s(&st, "src"), st["line"].as_u64().unwrap_or(0) as usize));
                         } else if let Some(r) = st["r"].as_str() {
                             blk.st.push((i, 'r', r.to_string(), String::new(), 0));
+                        } else if let Some(c) = st["c"].as_str() {
+                            blk.st.push((i, 'c', c.to_string(), String::new(), st["line"].as_u64().unwrap_or(0) as usize));
                         }
                     }
                     body.blocks.push(blk);
